@@ -25,7 +25,7 @@ type family struct {
 	foreign  map[string]string // generated files of a different grammar and package
 }
 
-var cwdModes = []string{"dot", "rel", "relslash", "abs", "absslash"}
+var cwdModes = []string{"dot", "rel", "relslash", "abs", "absslash", "symlink", "symlinkrel"}
 var mapModes = []string{"asc", "desc", "shuffle", "rotate", "shuffle"}
 
 func randMap(r *core.Rand) MapCfg {
@@ -51,6 +51,20 @@ func buildFamily(x *Executor, seed uint64, idx int) (*family, int, error) {
 	rejected := 0
 	var base *specgen.Spec
 	var gv specgen.GoVariant
+	if idx%4 == 3 {
+		// A family whose grammar is not LALR(1): every generation fails, and
+		// what it prints (--report lists the conflicts) must still be the same
+		// for every map order, history and working directory.
+		base = specgen.GenerateConflicting(r.Uint64())
+		gv = specgen.GoVariant{FileName: "parser.go"}
+		f := &family{idx: idx}
+		f.variants = append(f.variants, makeVariant("v0", base, gv, "conflicting grammar"))
+		s2 := cloneSpec(base)
+		s2.TwoFiles = !s2.TwoFiles
+		f.variants = append(f.variants, makeVariant("v1", s2, gv, "conflicting grammar, files split"))
+		f.foreign = map[string]string{"base.gen.go": "package foreignpkg\n"}
+		return f, 0, nil
+	}
 	for attempt := 0; ; attempt++ {
 		if attempt > 40 {
 			return nil, rejected, Infra("could not generate an accepted specification in 40 attempts (family %d)", idx)
@@ -478,7 +492,7 @@ func (st *c13State) randomRun(f *family, runIdx int, calls int, writeCalls []int
 			if r.Intn(4) == 0 {
 				bin = "plain"
 			}
-			run.Ops = append(run.Ops, Op{Kind: "Gen", Variant: pickV(), Binary: bin, Map: randMap(r), Cwd: cwdModes[r.Intn(5)], Report: r.Intn(3) == 0})
+			run.Ops = append(run.Ops, Op{Kind: "Gen", Variant: pickV(), Binary: bin, Map: randMap(r), Cwd: cwdModes[r.Intn(len(cwdModes))], Report: r.Intn(3) == 0})
 		case 3, 4, 5:
 			// crash: biased to the writes and the window between them
 			call := 1 + r.Intn(calls)
@@ -486,7 +500,7 @@ func (st *c13State) randomRun(f *family, runIdx int, calls int, writeCalls []int
 				call = writeCalls[r.Intn(len(writeCalls))]
 			}
 			torn := []string{"none", "trunc0", "prefix", "full"}[r.Intn(4)]
-			run.Ops = append(run.Ops, Op{Kind: "CrashGen", Variant: pickV(), Binary: "sim", Map: randMap(r), Cwd: cwdModes[r.Intn(5)],
+			run.Ops = append(run.Ops, Op{Kind: "CrashGen", Variant: pickV(), Binary: "sim", Map: randMap(r), Cwd: cwdModes[r.Intn(len(cwdModes))],
 				Fault: &Fault{Call: call, Kind: "crash", Torn: torn, Pct: 1 + r.Intn(99)}})
 		case 6, 7:
 			call := 1 + r.Intn(calls)
@@ -494,7 +508,7 @@ func (st *c13State) randomRun(f *family, runIdx int, calls int, writeCalls []int
 			if r.Intn(4) == 0 {
 				flt = &Fault{Fn: "packages.Load", Kind: "error"}
 			}
-			run.Ops = append(run.Ops, Op{Kind: "FailGen", Variant: pickV(), Binary: "sim", Map: randMap(r), Cwd: cwdModes[r.Intn(5)], Fault: flt})
+			run.Ops = append(run.Ops, Op{Kind: "FailGen", Variant: pickV(), Binary: "sim", Map: randMap(r), Cwd: cwdModes[r.Intn(len(cwdModes))], Fault: flt})
 		case 8:
 			run.Ops = append(run.Ops, Op{Kind: "DeleteGen", File: GenFiles[r.Intn(3)]})
 		case 9:
@@ -514,7 +528,7 @@ func (st *c13State) randomRun(f *family, runIdx int, calls int, writeCalls []int
 	if r.Intn(5) == 0 {
 		bin = "plain"
 	}
-	run.Ops = append(run.Ops, Op{Kind: "Gen", Variant: pickV(), Binary: bin, Map: randMap(r), Cwd: cwdModes[r.Intn(5)], Report: r.Intn(2) == 0})
+	run.Ops = append(run.Ops, Op{Kind: "Gen", Variant: pickV(), Binary: bin, Map: randMap(r), Cwd: cwdModes[r.Intn(len(cwdModes))], Report: r.Intn(2) == 0})
 	return run
 }
 
